@@ -133,7 +133,7 @@ class SymT(BaseT):
     def domain_events(s, kind=None):
         return [(k, e) for k, e, ok in E.domain if kind is None or k == kind]
 
-    def eq(s, label, got, want, dtype=True, shape=True):
+    def eq(s, label, got, want, dtype=True, shape=True, atol_scale=None):
         """got == want entrywise (and same shape / logical dtype)"""
         t0 = time.time()
         g, w = _as_obj(got), _as_obj(want)
@@ -364,7 +364,7 @@ class ConcT(BaseT):
         if not bool(np.all(cond)):
             raise PathAbort("assignment violates an assumption")
 
-    def eq(s, label, got, want, dtype=True, shape=True):
+    def eq(s, label, got, want, dtype=True, shape=True, atol_scale=None):
         g, w = np.asarray(got), np.asarray(want)
         if shape and g.shape != w.shape:
             return s._rec(label, "violated", f"shape {g.shape} != expected {w.shape}")
@@ -381,6 +381,9 @@ class ConcT(BaseT):
             return s._rec(label, "holds-concrete")
         eps = 1e-3 if (g.dtype in (np.float32, np.complex64) or w.dtype in (np.float32, np.complex64)) else s.rtol
         scale = max(1.0, float(np.max(np.abs(w2))) if np.all(np.isfinite(w2)) else 1.0)
+        if atol_scale is not None:
+            # the case states the magnitude of its data (tiny-scale inputs): the float comparison is relative to that, not to 1
+            scale = float(abs(atol_scale))
         bad = ~(np.abs(g2 - w2) <= eps * scale)
         if bad.any():
             i = int(np.argmax(bad.ravel()))
